@@ -38,12 +38,28 @@ def expand_factory(tier_):
     return expand
 
 
+def extensions_kept(c, r):
+    """an error raised by user code through the library's error class keeps its user message and its `extensions`
+    UNCHANGED; no other entry carries extensions"""
+    why = []
+    from .execgen import USER_PREFIX
+    with_ext = {USER_PREFIX + "/".join(map(str, p)) for p, k in (c.get("faults") or []) if k == "raise_gql_ext"}
+    for e in (r["response"].get("errors") or []):
+        msg = e.get("message")
+        if msg in with_ext:
+            if e.get("extensions") != {"code": 7}:
+                why.append("the error %r lost or altered its extensions: %r (raised with {'code': 7})" % (msg, e.get("extensions")))
+        elif "extensions" in e and isinstance(msg, str) and msg.startswith(USER_PREFIX) and not c.get("fail"):
+            why.append("the error %r carries extensions %r although none were raised with it" % (msg, e.get("extensions")))
+    return why
+
+
 def main(tier_, replay=None):
     n = (3, 6) if tier_ == "quick" else (16, 14)
     return c01.run_property(
         "C02", tier_, bits=1 | 2 | 4 | 8 | 64,
         explore_kwargs=dict(adversarial=0.0, fail=0.0, n_override=n, expand=expand_factory(tier_)),
-        property_files=C02_FILES,
+        property_files=C02_FILES, extra_python_check=extensions_kept,
         nontrivial=lambda c, r: bool(c.get("faults")) and bool(r["response"].get("errors")),
         rule="every resolver call site of a fault-free run failed in turn with every failure kind (raise, library "
              "error with extensions, exception returned as value, null, unserialisable object, scalar for "
